@@ -20,6 +20,10 @@ def validate_bwd(rep, name, lines, impl):
     rep.cov["streams"][name] = {"cases": len(idx), "validated_by_verified_checker": len(idx) - len(bad), "rejected": len(bad)}
     rep.cov["evaluations"] += len(idx)
     rng = random.Random(rep.seed)
+    import re
+    known = [k for k in vlib.load_known().get("findings", []) if k.get("property") == "C11"]
+    # inputs of a recorded finding are reported (as KNOWN-FINDING) by the correspondence stream
+    bad = [i for i in bad if not any(re.search(k["line_regex"], lines[i]) for k in known)]
     for i in bad[:3]:
         w = cfgprog.oracle_bwd(lines[i], impl[i], rng)
         text = ("the Coq-verified checker of precondition tables (theorems C11_error_tables_sound / C11_good_tables_sound) rejects the "
